@@ -1,6 +1,7 @@
 package engine
 
 import (
+	"sync/atomic"
 	"context"
 	"sync"
 	"time"
@@ -115,7 +116,7 @@ type hAggregator struct {
 	ctxDoneAt    int // number of instance Run calls that had returned when ctx was cancelled (E6)
 	lateOK       *bool
 	lastTok      *int64
-	callerCancel *bool
+	callerCancel *atomic.Bool
 	metrics      *Metrics // when set: E6 is checked at the moment the aggregator is cancelled
 }
 
@@ -147,7 +148,7 @@ func (a *hAggregator) Run(ctx context.Context, _ core.AggregatorDeps) error {
 }
 
 // parentCancelled: the harness marks a caller-initiated cancel (then everything stops at once).
-func (a *hAggregator) parentCancelled() bool { return a.callerCancel != nil && *a.callerCancel }
+func (a *hAggregator) parentCancelled() bool { return a.callerCancel != nil && a.callerCancel.Load() }
 
 type hGun struct {
 	mu      *sync.Mutex
